@@ -402,7 +402,15 @@ fn random_case(id: u64, seed: u64) -> Case {
         title: text(&mut r, tl, 35, tr, false),
         author: text(&mut r, al, 20, tr_a, false),
         group: text(&mut r, gl, 20, tr_g, false),
-        comments: (0..n).map(|_| { let l = r.gen_range(0..=64); let t = trs[r.gen_range(0..3)]; text(&mut r, l, 64, t, false) }).collect(),
+        // (one line in eight looks like a structure marker of the record itself: a full 64-byte line that ends / begins with the
+        //  comment block id or the record id - a reader must find the block by COUNTING, not by searching)
+        comments: (0..n).map(|_| {
+            if r.gen_range(0..8) == 0 {
+                let mark: &[u8] = [&b"COMNT"[..], &b"SAUCE00"[..], &b"\x1aCOMNT"[..], &b"SAUCE"[..]][r.gen_range(0..4)];
+                let fill = vec![b'x'; 64 - mark.len()];
+                return if r.gen_bool(0.5) { [fill.as_slice(), mark].concat() } else { [mark, fill.as_slice()].concat() };
+            }
+            let l = r.gen_range(0..=64); let t = trs[r.gen_range(0..3)]; text(&mut r, l, 64, t, false) }).collect(),
         font,
         ice: r.gen_bool(0.4),
         ls: r.gen_bool(0.4),
